@@ -203,7 +203,7 @@ func H_C18_builtin_objects() {
 
 func H_C18_keys() {
 	fp := mkFaultPlan(0)
-	keyTreeNoVary = true
+	keyTreeNoVary = false // short coordinates matter: encoding pads them
 	var k Key
 	vAssume(k.UnmarshalCBOR(vSer(mkConfKeyTree("k", fp))) == nil)
 	snapK := vSnapshot(&k)
